@@ -217,6 +217,7 @@ func init() {
 			{Fn: "H_include", Fuel: 30_000_000, Tier: "quick", Reach: []string{"end"}},
 			{Fn: "H_enum_order", Fuel: 30_000_000, Tier: "quick", Reach: []string{"end"}},
 			{Fn: "H_file_programs", Fuel: 30_000_000, Tier: "quick", Reach: []string{"end"}},
+			{Fn: "H_diagnostics_repeat", Fuel: 30_000_000, Tier: "quick", Reach: []string{"end"}},
 		},
 		Rule:        rule + "; Go's map iteration order is the adversary and is made a symbolic choice: every range over a Go map with 2..3 entries executed inside origami code (up to 4 such ranges per path) takes its order from a fresh symbolic permutation, all orders are explored as sibling paths, and the output must equal the insertion-order run of the same template in the same path; OrderedMap Set/Delete histories against a slice model; all ordered pairs (A then B vs B alone) of the templates on fresh VMs in one engine process; H_enum_order: explicit insertion-order oracle for objects and string-keyed arrays over every order of three names; H_include: two programs including the same file",
 		Assumptions: []string{"maps with more than 3 entries and the 5th and later permutable ranges of a path iterate in insertion order"},
